@@ -185,7 +185,7 @@ fn judge(
     dfs_valid(m, sources, &all, true, &format!("{what} (resumed past the known early None)"))
 }
 
-fn check_repr<D>(g: &D, alt: &D, name: &str, m: &UModel, sources: &[usize], obs: &mut Obs) -> Verdict
+fn check_repr<D>(g: &D, alt: &D, name: &str, m: &UModel, sources: &[usize], obs: &mut Obs, mk: &dyn Fn(&Dg) -> D) -> Verdict
 where
     D: Order + OutNeighbors + Clone,
 {
@@ -196,6 +196,13 @@ where
         crate::props::c02::clone_from_consistency(&format!("Dfs<{name}>"), || Dfs::new(g, sources.iter().copied()), || Dfs::new(alt, sources.iter().copied()), len)?;
         crate::props::c02::clone_from_consistency(&format!("DfsDist<{name}>"), || DfsDist::new(g, sources.iter().copied()), || DfsDist::new(alt, sources.iter().copied()), len)?;
         crate::props::c02::clone_from_consistency(&format!("DfsPred<{name}>"), || DfsPred::new(g, sources.iter().copied()), || DfsPred::new(alt, sources.iter().copied()), len)?;
+        // and onto iterators over digraphs of smaller / larger order
+        for other in [mk(&gen::path_dg(m.order() / 2)), mk(&gen::path_dg(m.order() + 3))] {
+            let src = || std::iter::once(0);
+            crate::props::c02::clone_from_consistency(&format!("Dfs<{name}>"), || Dfs::new(g, sources.iter().copied()), || Dfs::new(&other, src()), len)?;
+            crate::props::c02::clone_from_consistency(&format!("DfsDist<{name}>"), || DfsDist::new(g, sources.iter().copied()), || DfsDist::new(&other, src()), len)?;
+            crate::props::c02::clone_from_consistency(&format!("DfsPred<{name}>"), || DfsPred::new(g, sources.iter().copied()), || DfsPred::new(&other, src()), len)?;
+        }
         // when the plain traversal is complete (no early None), the iterator must behave
         // like an iterator over that sequence under count / last / fold / nth as well
         let full: Vec<usize> = Dfs::new(g, sources.iter().copied()).collect();
@@ -509,11 +516,11 @@ impl Prop for C06 {
                 a
             },
         };
-        check_repr(&AdjacencyList::build(&c.g), &AdjacencyList::build(&alt), "AdjacencyList", &m, s, obs)?;
-        check_repr(&AdjacencyMap::build(&c.g), &AdjacencyMap::build(&alt), "AdjacencyMap", &m, s, obs)?;
-        check_repr(&AdjacencyMatrix::build(&c.g), &AdjacencyMatrix::build(&alt), "AdjacencyMatrix", &m, s, obs)?;
-        check_repr(&EdgeList::build(&c.g), &EdgeList::build(&alt), "EdgeList", &m, s, obs)?;
-        check_repr(&reprs::build_unit_weighted(&c.g), &reprs::build_unit_weighted(&alt), "AdjacencyListWeighted", &m, s, obs)?;
+        check_repr(&AdjacencyList::build(&c.g), &AdjacencyList::build(&alt), "AdjacencyList", &m, s, obs, &|d| AdjacencyList::build(d))?;
+        check_repr(&AdjacencyMap::build(&c.g), &AdjacencyMap::build(&alt), "AdjacencyMap", &m, s, obs, &|d| AdjacencyMap::build(d))?;
+        check_repr(&AdjacencyMatrix::build(&c.g), &AdjacencyMatrix::build(&alt), "AdjacencyMatrix", &m, s, obs, &|d| AdjacencyMatrix::build(d))?;
+        check_repr(&EdgeList::build(&c.g), &EdgeList::build(&alt), "EdgeList", &m, s, obs, &|d| EdgeList::build(d))?;
+        check_repr(&reprs::build_unit_weighted(&c.g), &reprs::build_unit_weighted(&alt), "AdjacencyListWeighted", &m, s, obs, &reprs::build_unit_weighted)?;
 
         let reach = m.reach(s);
         let multi_in = reach
